@@ -22,8 +22,12 @@ LEVEL_TEXT = ("Lean 4 theorems, for all networks (any number of points and clust
               "exactly and, for a printer with finitely many digits (projection law), for the quantised network. The parser's "
               "attribute/code tables and the writer's sites, status letters, y_sign sites and cov-mat call flags are regenerated from "
               "gkfparser.cpp / network.cpp / observation.cpp / lcoords.h on every run; the model is run against the real parser + "
-              "export writer on generated whole documents (two rounds). Output in degrees is modelled and tied but not proved; "
-              "adjustment-level claims (same adjusted coordinates, no further iterations, n = 1..3 rounds) explored end-to-end.")
+              "export writer on generated whole documents (two rounds). Output in degrees (sexagesimal values, standard deviations and "
+              "covariance rows in seconds) is proved like gons; the hypothesis Net.WF is decidable and evaluated by the driver on every "
+              "document; what the parser establishes of it is proved (parameter guards, point ids, covariance shape). Adjustment clauses: "
+              "theorems on the regenerated refine_approx_coordinates / refine_adjustment sites (the exported coordinates are those of "
+              "the last linearisation = adjusted coordinates of the pass before; a converged run re-adjusts with zero iterations and "
+              "the same results, for every adjustment that is a function of the network); the adjustment itself explored end-to-end.")
 LEVEL_NOTE = ("Numbers are abstract: exact law on the representable numbers, or Codec.Printer (rd (fmt x) = q x, fmt (q x) = fmt x, sign "
               "symmetric, non-zero never printed as zero) with a fixed-digits decimal printer as witness; whether gama's 17/16/8 digits "
               "satisfy the side conditions is explored. Trusted: Lean kernel, Props/C13.lean, tools/gen/c13_attrs.py, "
@@ -39,7 +43,10 @@ MODELLED = ["number formatting/parsing (to_xmlstr, setprecision, toDouble): Code
             "Acord2 / linearisation / adjustment between parse and export (C06, C01): explored end-to-end only",
             "text layout of the exported file, expat, str2xml escaping (C12)"]
 ASSUMPTIONS = ["Codec.LawfulOn R / Codec.Printer q for the numbers written by export_xml",
-               "output in gons for the network-level theorems (degrees: modelled and tied, not proved)"]
+               "Codec.DegLawfulOn Rd / the sexagesimal half of Codec.Printer (rdDeg (fmtDeg x) = qd x, fmtDeg (qd x) = fmtDeg x, "
+               "fromSec/toSec mutually inverse); C13_sexagesimal_read_back ties the first to the gon2deg/deg2gon models of C18",
+               "C13_readjustment_identical: the adjustment is a function of the network (what C01/C04/C05/C09 prove of its parts) and "
+               "the exported run had converged"]
 
 _spec2 = importlib.util.spec_from_file_location("c13_nets", str(VERIF / "tools" / "gen" / "c13_nets.py"))
 N = importlib.util.module_from_spec(_spec2)
@@ -265,10 +272,21 @@ def norm_status(fix, adj):
 
 def read_result(path):
     root = ET.parse(path).getroot()
-    res = {"adj": {}, "obs": [], "iters": 0}
+    res = {"adj": {}, "apx": {}, "obs": [], "iters": 0}
     for e in root.iter():
         t = local(e.tag)
-        if t == "adjusted":
+        if t == "approximate":
+            for p in e:
+                if local(p.tag) != "point":
+                    continue
+                pid = None
+                for c in p:
+                    lt = local(c.tag)
+                    if lt == "id":
+                        pid = N.pid_norm(c.text or "")
+                    elif lt in "xyzXYZ":
+                        res["apx"][(pid, lt.lower())] = float(c.text)
+        elif t == "adjusted":
             for p in e:
                 if local(p.tag) != "point":
                     continue
@@ -295,12 +313,12 @@ def compare_results(r0, rk, what):
     diffs = []
     if set(r0["adj"]) != set(rk["adj"]):
         return [f"{what}: sets of adjusted coordinates differ: {sorted(set(r0['adj']) ^ set(rk['adj']))[:4]}"]
+    for k in ("equations", "degrees-of-freedom", "defect", "unknowns"):
+        if r0.get(k) != rk.get(k):
+            diffs.append(f"{what}: {k} {r0.get(k)} vs {rk.get(k)}")
     for k, v in r0["adj"].items():
         if abs(v - rk["adj"][k]) > 2e-5:
             diffs.append(f"{what}: adjusted {k} {v} vs {rk['adj'][k]}")
-    for k in ("degrees-of-freedom", "defect", "equations", "unknowns"):
-        if r0.get(k) != rk.get(k):
-            diffs.append(f"{what}: {k} {r0.get(k)} vs {rk.get(k)}")
     s0, sk = r0.get("sum-of-squares", 0.0), rk.get("sum-of-squares", 0.0)
     # absolute floor: consistent (noise-free) networks have a sum of squares that is pure rounding noise, and the
     # exported heights of instrument/target carry 8 significant digits
@@ -382,11 +400,37 @@ def gen_case(rng, k):
     epoch = rng.choice([None, None, 2021.5])
     gkf = N.to_gkf2(net, axes=axes, angles=angles, degrees=degrees, description=rng.choice(["plain net", "plain net", "R&D", "it's", "a < b"]),
                     extra_params=extra, epoch=epoch, obs_from_dh=False)
+    # poor approximate coordinates of the adjusted points (decimetres to a metre off): the first linearisation is not
+    # good enough, refine_adjustment iterates and the export carries coordinates refine_approx_coordinates has moved
+    shifted = False
+    if kind in ("2d", "2dang", "3d", "3dh") and not gross and rng.random() < POOR_APPROX_SHARE:
+        def shift(m):
+            t = m.group(0)
+            if " adj=" not in t:
+                return t
+            return re.sub(r' (x|y)="(-?[0-9.]+)"', lambda q: f' {q.group(1)}="{float(q.group(2)) + rng.uniform(-1.0, 1.0):.4f}"', t)
+        gkf2 = re.sub(r"<point [^>]*/>", shift, gkf)
+        shifted = gkf2 != gkf
+        gkf = gkf2
+        # with the default tol-abs the observations whose absolute term is large only because of these coordinates would be
+        # removed before the first adjustment and be back in the export (finding F29, corpus/C13/f29-*.gkf): keep them in
+        if re.search(r'tol-abs="[^"]*"', gkf):
+            gkf = re.sub(r'tol-abs="[^"]*"', 'tol-abs="100000"', gkf, count=1)
+        else:
+            gkf = gkf.replace("<parameters", '<parameters tol-abs="100000"', 1)
     return {"kind": kind, "gkf": gkf, "degrees": degrees, "out360": out360, "gross": gross, "axes": axes, "angles": angles,
-            "flavour": flav, "noise": noise}
+            "flavour": flav, "noise": noise, "shifted": shifted}
 
 
 ROUNDS = 3
+
+# share of the generated 2D / 3D networks whose adjusted points get approximate coordinates up to a metre off, so that
+# refine_adjustment iterates before the export.  OFF by default: on the current tree such runs expose two behaviours of the
+# real code that are recorded as findings, not yet as known findings (report, round 3b): F29 (observations removed for a
+# huge absolute term at the poor coordinates are back in the export) and F30 (the statistics of a run that iterated differ
+# from those of the fresh adjustment of its own export: [pvv] 2e-3 relative).  `C13_POOR_APPROX=0.35 python3 tools/check.py C13`
+# turns the generator on; the witnesses are corpus/C13/f29-*.gkf and f30-*.gkf (not run automatically).
+POOR_APPROX_SHARE = float(os.environ.get("C13_POOR_APPROX", "0.35"))
 
 
 def run_rounds(gdir, wd, idx, gkf_text):
@@ -414,6 +458,51 @@ def run_rounds(gdir, wd, idx, gkf_text):
             res["e"].append(ex.read_text(encoding="utf-8", errors="replace"))
             cur = ex
     return res
+
+
+def removed_for_abs_term(gdir, wd, idx, k):
+    """the observations gama-local lists under 'Outlying absolute terms in project equations' (and removes) when it reads the
+    input of round k: rows 'standpoint target kind'"""
+    src = wd / f"c{idx}_e{k}.gkf"
+    txt = wd / f"c{idx}_t{k}.txt"
+    try:
+        sh([str(gdir / "gama-local"), str(src), "--text", str(txt)], timeout=120)
+        t = txt.read_text(encoding="utf-8", errors="replace")
+    except Exception:
+        return None
+    m = re.search(r"Outlying absolute terms in project equations\n\*+\n(.*?)\n\s*\nObservations with outlying absolute terms removed", t, re.S)
+    if not m:
+        return []
+    rows = []
+    for l in m.group(1).splitlines():
+        tk = l.split()
+        if len(tk) >= 5 and tk[0].isdigit():
+            rows.append(" ".join(tk[1:-2]))
+    return rows
+
+
+def diagnose(gdir, wd, idx, g, results, k):
+    """facts about a pair (r0, rk) that does not agree, for the report and for the narrow signatures of F29 / F30"""
+    out = []
+    rem0, remk = removed_for_abs_term(gdir, wd, idx, 0), removed_for_abs_term(gdir, wd, idx, k)
+    if rem0 is not None and remk is not None:
+        back = [r for r in rem0 if r not in remk]
+        out.append(f"r0 removed {len(rem0)} observation(s) for an outlying absolute term, r{k} removed {len(remk)}; "
+                   f"removed in r0 and active in r{k}: {back[:3]}")
+    far = 0.0
+    for (pid, c), v in results[0]["adj"].items():
+        a = g[0]["points"].get(pid, {}).get(c)
+        if a is not None:
+            far = max(far, abs(abs(float(a)) - abs(v)))
+    out.append(f"given approximate coordinates up to {far:.3f} m from the adjusted ones")
+    same_pd = set(results[0]["apx"]) == set(results[k]["apx"]) and \
+        all(abs(v - results[k]["apx"][key]) <= 2e-6 for key, v in results[0]["apx"].items())
+    same_eq = all(results[0].get(x) == results[k].get(x) for x in ("equations", "unknowns", "degrees-of-freedom", "defect"))
+    if results[0]["iters"]:
+        out.append(f"r0 needed {results[0]['iters']} linearisation iterations")
+    if same_pd and same_eq:
+        out.append(f"approximate coordinates and equations of r0 and r{k} agree")
+    return out
 
 
 def check_case(ctx, gdir, wd, idx, c, corr):
@@ -444,6 +533,8 @@ def check_case(ctx, gdir, wd, idx, c, corr):
         corr.count("sexagesimal_inputs")
     if c["out360"]:
         corr.count("angles360")
+    if c.get("shifted"):
+        corr.count("networks_with_poor_approximate_coordinates")
     nobs_in = sum(len(cl["items"]) for cl in read_gkf(c["gkf"])["clusters"])
     # 1. exported files are valid XML and describe the same survey as the input
     try:
@@ -466,7 +557,7 @@ def check_case(ctx, gdir, wd, idx, c, corr):
         d = compare_results(results[0], results[k], f"r0 vs r{k}")
         if d:
             corr.fail("adjusting the exported file does not reproduce the adjustment", dict(payload, diffs=d[:6], round=k),
-                      "export_xml -> gama-local", "; ".join(d[:6]))
+                      "export_xml -> gama-local", "; ".join(d[:6] + diagnose(gdir, wd, idx, g, results, k)))
             break
         if results[k]["iters"] != 0:
             corr.fail("adjusting the exported file needs further linearisation iterations",
@@ -475,6 +566,38 @@ def check_case(ctx, gdir, wd, idx, c, corr):
             break
     if len(results[0]["obs"]) < nobs_in:
         corr.count("networks_with_removed_observations")
+    # 3. what the exported coordinates are (C13_export_coordinates_are_adjusted_partial): export_xml writes PointData, the
+    #    point of the last linearisation = <approximate> of the result (6 decimals there); they are the adjusted coordinates
+    #    of the reported adjustment only up to its last correction x/1000, which is measured here, not required to vanish
+    for k in range(0, ROUNDS):
+        pts = g[k + 1]["points"]
+        worst = None
+        for (pid, c), v in results[k]["apx"].items():
+            a = pts.get(pid, {}).get(c)
+            if a is None:
+                worst = (pid, c, "missing", v)
+                break
+            if abs(abs(float(a)) - abs(v)) > 2e-6:
+                worst = (pid, c, float(a), v)
+                break
+        if worst:
+            corr.fail("the exported coordinates are not the approximate coordinates of the exported adjustment (PointData after refine_approx_coordinates)",
+                      dict(payload, round=k, diffs=[str(worst)]), "LocalNetwork::export_xml / refine_approx_coordinates",
+                      f"round {k}: point {worst[0]} {worst[1]}: exported {worst[2]} vs approximate {worst[3]}")
+            break
+    dmax = 0.0
+    for key, v in results[0]["adj"].items():
+        a = g[1]["points"].get(key[0], {}).get(key[1])
+        if a is not None:
+            dmax = max(dmax, abs(abs(float(a)) - abs(v)))
+    corr.maxstat("max_adjusted_minus_exported_m", dmax)
+    corr.count("networks_exported_equals_adjusted_1e-6" if dmax <= 1e-6 else "networks_exported_differs_from_adjusted")
+    if results[0]["iters"] > 0:
+        corr.count("networks_with_linearisation_iterations")
+    # how far from exact the printed precision leaves the re-adjustment (C13_readjustment_identical holds for the exact codec)
+    corr.maxstat("max_readjusted_coordinate_shift_m", max([abs(v - results[1]["adj"].get(key, v)) for key, v in results[0]["adj"].items()] or [0.0]))
+    s0, s1 = results[0].get("sum-of-squares", 0.0), results[1].get("sum-of-squares", 0.0)
+    corr.maxstat("max_readjusted_pvv_shift_rel", abs(s0 - s1) / max(abs(s0), 1e-9) if abs(s0) > 1e-6 else 0.0)
     return True
 
 
@@ -1098,6 +1221,18 @@ def doc_same_as_input(doc, exported):
     return None
 
 
+def split_model(lines):
+    """(document lines, 'again …' line, 'wf …' line) of the driver's answer to a `net` operation"""
+    body, again, wf = list(lines), "", ""
+    while body and (body[-1].startswith("again") or body[-1].startswith("wf")):
+        l = body.pop()
+        if l.startswith("wf"):
+            wf = l
+        else:
+            again = l
+    return body, again, wf
+
+
 def doc_stream(ctx, corr, exe):
     metas, cases = [], []
     for _ in range(ctx.size(400, 8000)):
@@ -1145,25 +1280,35 @@ def doc_stream(ctx, corr, exe):
         except ET.ParseError as e:
             corr.fail("the exported document is not well-formed", dict(payload, exported=exported[:2000]), "LocalNetwork::export_xml", str(e))
             continue
-        why = docs_equal(ra, canon_model(model[i][:-1]))
+        mbody, magain, mwf = split_model(model[i])
+        why = docs_equal(ra, canon_model(mbody))
         if why:
             corr.disagree("doc", [doc[-1800:]], [exported[-1500:]], model[i][:14], why)
+        # the hypothesis Net.WF of C13_roundtrip_network / C13_fixed_point_network, decided by the driver for the network
+        # the parser returns: when it holds the theorems predict the fixed point — for the model (else the Lean side is
+        # inconsistent with its own theorem: broken) and, through the correspondence, for export_xml (second round below)
+        wf_in = mwf.split()[1:2] == ["1"]
+        corr.count("doc_input_wf" if wf_in else "doc_input_not_wf")
+        for r in mwf.split()[2:]:
+            corr.count("doc_input_not_wf_" + r)
+        if wf_in and magain != "again same":
+            corr.disagree("doc", [doc[-1800:]], ["Net.WF holds"], [magain, mwf], "Net.WF holds for the parsed document but the model's second export differs")
         why = doc_same_as_input(doc, exported)
         if why:
             corr.fail("the exported document does not describe the same survey as the input", dict(payload, diffs=[why]),
                       "LocalNetwork::export_xml / GKFparser", "doc: " + why)
-        if model[i][-1] != "again same":
+        if magain != "again same":
             # the model regenerated from a tree whose writer and parser disagree (F26, F27) reproduces that; the failing input
             # comes from the implementation's own second round below
             corr.count("doc_model_export_not_a_fixed_point")
         corr.count("doc_compared")
         second.append([f"net {hexs(exported)} {doc_tokens(exported)}"])
-        sidx.append((i, exported, ra))
+        sidx.append((i, exported, ra, wf_in))
     # second round: the real export as input of both sides (the model's parse of the real export), and the
     # implementation's own fixed point: export(parse(e1)) describes the same document as e1
     impl2, crashes2 = run_cases(exe, second)
     model2, _ = run_cases(ctx.driver("drv_export"), second)
-    for k, (i, exported, ra) in enumerate(sidx):
+    for k, (i, exported, ra, wf_in) in enumerate(sidx):
         payload = {"stream": "doc", "gkf": metas[i][1], "exported": exported[:3000]}
         if k in crashes2 or not impl2[k] or not impl2[k][0].startswith("ok "):
             corr.fail("the exported document is not an acceptable input", payload, "LocalNetwork::export_xml / GKFparser",
@@ -1174,13 +1319,19 @@ def doc_stream(ctx, corr, exe):
         why = docs_equal(ra, rb)
         if why:
             corr.fail("exporting the exported document does not yield an equivalent document", dict(payload, diffs=[why]),
-                      "LocalNetwork::export_xml / GKFparser", why)
+                      "LocalNetwork::export_xml / GKFparser", ("[Net.WF held for the input] " if wf_in else "") + why)
+        elif wf_in:
+            corr.count("doc_wf_and_fixed_point")
         if not model2[k] or model2[k][0].startswith("throw") or model2[k][0] == "bad-op":
             corr.disagree("doc", [exported[-1500:]], ["accepted"], model2[k][:2], "the model refuses a document written by export_xml")
             continue
-        why = docs_equal(rb, canon_model(model2[k][:-1]))
+        m2body, m2again, m2wf = split_model(model2[k])
+        why = docs_equal(rb, canon_model(m2body))
         if why:
             corr.disagree("doc", [exported[-1800:]], [e2[-1500:]], model2[k][:14], "second round: " + why)
+        corr.count("doc_export_wf" if m2wf.split()[1:2] == ["1"] else "doc_export_not_wf")
+        for r in m2wf.split()[2:]:
+            corr.count("doc_export_not_wf_" + r)
         corr.count("doc_second_round_compared")
 
 
@@ -1197,7 +1348,9 @@ def correspond(ctx, corr):
         doc_stream(ctx, corr, ctx.build_cpp("c13_export", [ctx.verif / "harness" / "c13_export.cpp"], libs=objs + ["-lexpat"]))
         cases = []
         corpus = ctx.verif / "corpus" / "C13"
-        for f in sorted(corpus.glob("net-*.gkf")):
+        # net-*: regression inputs that must pass (net-dh-dist-stdev-F28: fixed by 9f04c51); f29-* / f30-*: witnesses of the
+        # known findings F29 / F30, run on every check so that their KNOWN-FINDING lines are printed
+        for f in sorted(corpus.glob("net-*.gkf")) + sorted(corpus.glob("f29-*.gkf")) + sorted(corpus.glob("f30-*.gkf")):
             cases.append({"kind": "corpus", "gkf": f.read_text(encoding="utf-8"), "degrees": False, "out360": False,
                           "gross": False, "flavour": "corpus"})
         for k in range(ctx.size(150, 2500)):
@@ -1232,6 +1385,21 @@ def classify(ctx, f):
         if re.search(r"obs: cov-mat element", d) and re.search(r'(angles|angular)="360"', str(f.replay.get("gkf", ""))):
             return "F26"
         return None
+    if re.search(r"<dh [^>]*dist=[^>]*stdev=|<dh [^>]*stdev=[^>]*dist=", str(f.replay.get("gkf", ""))) and ("stdev of" in d or "does not reproduce" in f.what):
+        return "F28"
+    if "does not reproduce" in f.what:
+        # F29: an observation listed as removed for its absolute term in r0 is active in rk (more equations there), and the
+        # GIVEN approximate coordinates are far (> 5 cm) from the adjusted ones
+        m = re.search(r"r0 vs r\d: equations ([0-9.]+) vs ([0-9.]+)", d)
+        mr = re.search(r"removed in r0 and active in r\d: \[(.*?)\]", d)
+        mf = re.search(r"given approximate coordinates up to ([0-9.]+) m", d)
+        if m and float(m.group(2)) > float(m.group(1)) and mr and mr.group(1).strip() and mf and float(mf.group(1)) > 0.05:
+            return "F29"
+        # F30: a run with >= 1 iteration whose [pvv] differs from the fresh adjustment of its own export while PointData and
+        # the equations agree
+        if re.search(r"r0 needed [1-9]\d* linearisation iterations", d) and \
+                re.search(r"approximate coordinates and equations of r0 and r\d agree", d) and "sum of squares" in d:
+            return "F30"
     if "fs_dh of" in d and " differs" in d:
         return "F8"
     if "not well-formed" in f.what or ("not an acceptable input" in f.what and
